@@ -106,7 +106,9 @@ func genSession(r *rand.Rand, i int) J {
 	// whatever the engine has seen before.  (Structs are outside the reference's universe: judged on determinism,
 	// independence and immutability.)
 	withAcct := i%7 == 3
+	acctAt := 0
 	if withAcct {
+		acctAt = len(templates)
 		for j := range envs {
 			e := envs[j].([]any)
 			e = append(e, []any{bs("u"), vMap("n", vInt(3), "name", vStr("ann"))})
@@ -118,6 +120,20 @@ func genSession(r *rand.Rand, i int) J {
 			[]any{nObj(eProp(eVar("u"), "Total")), nText("|"), nObj(eProp(eVar("u"), "Label")), nText("|"), nObj(eProp(eVar("u"), "name")), nText("|"), nObj(eProp(eVar("u"), "Name")), nText("|"), nObj(eProp(eVar("u"), "nosuch"))},
 			[]any{J{"t": "if", "branches": []any{J{"c": eProp(eVar("u"), "Total"), "body": []any{nText("has total")}}, J{"c": J{"t": "else"}, "body": []any{nText("none")}}}}, nObj(eFilter(eProp(eVar("u"), "n"), "plus", eLit(vInt(1))))})
 	}
+	// loop modifiers given by a variable that differs between the environments (positive here, zero or negative there):
+	// each render of the one parsed template goes by its own bindings
+	for j := range envs {
+		if e := envs[j].([]any); len(e) > 0 {
+			envs[j] = append(e, []any{bs("k"), vInt([]int{2, 0, -1, 3}[(j+i)%4])})
+		}
+	}
+	modTpl := func(tag, mod string) []any {
+		return []any{J{"t": "for", "tag": tag, "var": bs("x"), "coll": eVar("q"), mod: eVar("k"), "body": []any{nObj(eVar("x"))}}, nText(";")}
+	}
+	modAt := len(templates)
+	templates = append(templates, modTpl("tablerow", "cols"), modTpl("for", "lim"), modTpl("for", "off"))
+	// a filter that does not exist, its name the beginning of several that do: the same error every time
+	templates = append(templates, []any{nText("a"), nObj(eFilter(eVar("s"), pick(r, []string{"s", "trunc", "url_", "strip_", "re", "sort_", "up", "r", "escape_"})))})
 	ill := illFormedTemplates()
 	templates = append(templates, ill[r.Intn(len(ill))])
 	// an included file (registered in the engine's cache) that fails part-way for the environments whose q holds a
@@ -146,14 +162,36 @@ func genSession(r *rand.Rand, i int) J {
 			op["morph"] = true // (the caller's one bindings object, edited in place since the last render)
 		}
 		if withAcct && k%2 == 0 {
-			op["t"] = len(templates) - 5 + r.Intn(2) // (the two templates about u; after them: one ill-formed, two includes)
+			op["t"] = acctAt + r.Intn(2) // (the two templates about u)
 		}
 		if withAcct && k < 3 {
 			// the pattern C03 names: these bindings, then other bindings, then these again
-			op["t"] = len(templates) - 5 + i%2
+			op["t"] = acctAt + i%2
 			op["b"] = []int{1, 0, 1}[k]
 		}
 		ops = append(ops, op)
+	}
+	// the pattern C03 names, for the templates whose loop modifier is the variable k: bindings where it is zero or
+	// negative, then bindings where it is positive, then the first again
+	{
+		lo, hi := -1, -1
+		for j := range envs {
+			if len(envs[j].([]any)) == 0 {
+				continue
+			}
+			if kv := []int{2, 0, -1, 3}[(j+i)%4]; kv <= 0 && lo < 0 {
+				lo = j
+			} else if kv > 0 && hi < 0 {
+				hi = j
+			}
+		}
+		if lo >= 0 && hi >= 0 {
+			for t := modAt; t < modAt+3; t++ {
+				for _, b := range []int{lo, hi, lo} {
+					ops = append(ops, J{"t": t, "b": b, "entry": pick(r, entries)})
+				}
+			}
+		}
 	}
 	incBody := []any{nText("["), J{"t": "for", "tag": "for", "var": bs("x"), "coll": eVar("q"), "body": []any{nObj(eFilter(eLit(vInt(6)), "divided_by", eVar("x"))), nText(",")}}, nText("]")}
 	c := J{"kind": "session", "templates": templates, "envs": envs, "reprs": reprs, "ops": ops, "cache": []any{[]any{bs("zz_inc_q.liq"), incBody}}}
